@@ -120,8 +120,9 @@ Step(S0, T0, r) ==
                 total == Total(mk)
                 cut == ~res.blank /\ IsCut(S1, c)
                 S2 == [S1 EXCEPT !.above = c.above, !.order = c.order, !.blanked = res.blank, !.wasCut = S1.wasCut \/ cut, !.bottom = IF S1.align = "bottom" /\ ~res.blank THEN NextPrint(T1)[1] ELSE 0,
-                                 !.bars = [b \in DOMAIN S1.bars |-> IF b \in c.V THEN [S1.bars[b] EXCEPT !.static = FALSE, !.vis = FALSE]
-                                                         ELSE IF res.blank THEN S1.bars[b] ELSE [S1.bars[b] EXCEPT !.onscr = S1.bars[b].pend]]]
+                                 !.bars = LET bs == [b \in DOMAIN S1.bars |-> IF b \in c.V THEN [S1.bars[b] EXCEPT !.static = FALSE, !.vis = FALSE]
+                                                         ELSE IF res.blank THEN S1.bars[b] ELSE [S1.bars[b] EXCEPT !.onscr = S1.bars[b].pend]]
+                                          IN IF cut THEN MarkCutOff(S1, c, bs) ELSE bs]
             IN [S |-> S2, T |-> T1,
                 m |-> [p |-> TRUE, forced |-> res.forced, log |-> res.log # <<>>, cut |-> cut, k |-> k, v |-> Cardinality(c.V),
                        wrapped |-> total > Len(TopLines(S1, c, res.blank)) + Len(ShownCut(S1, c, res.blank))],
